@@ -24,6 +24,45 @@ fn text_of(rec: &J) -> String {
 	s
 }
 
+/// long BYTE inputs (MC_NestBytes): encode(head pre^n) ++ bad ++ encode(tail) through the slice entry points, in-process
+pub fn replay_nestb(rep: &mut Report, rec: &J) {
+	rep.count("nestb_vectors");
+	let part = |k: &str| cps_to_string(&rec[k]).unwrap_or_default();
+	let n = rec["n"].as_u64().unwrap() as usize;
+	let mut bytes: Vec<u8> = part("head").into_bytes();
+	let pre = part("pre");
+	bytes.reserve(n * pre.len() + 16);
+	for _ in 0..n {
+		bytes.extend_from_slice(pre.as_bytes());
+	}
+	bytes.extend(rec["bad"].as_array().unwrap().iter().map(|b| b.as_u64().unwrap() as u8));
+	bytes.extend_from_slice(part("tail").as_bytes());
+	let ctx = json!({"family": rec["name"], "n": n, "bytes": bytes.len(), "vector": rec});
+	let quant = |r: Result<Result<(Value, json_syntax::CodeMap), Error<core::convert::Infallible>>, String>| -> J {
+		match r {
+			Err(p) => json!({"panic": p}),
+			Ok(Ok((v, cm))) => {
+				let q = json!([1, cm.len()]);
+				std::mem::forget(v);
+				q
+			}
+			Ok(Err(Error::Unexpected(p, c))) => json!([0, p, c.map(|c| c as i64).unwrap_or(-1)]),
+			Ok(Err(Error::InvalidUtf8(p))) => json!([-2, p]),
+			Ok(Err(_)) => json!([-1]),
+		}
+	};
+	for (entry, got) in [("parse_slice", quant(guarded(|| Value::parse_slice(&bytes)))), ("parse_slice_with(strict)", quant(guarded(|| Value::parse_slice_with(&bytes, Options::strict()))))] {
+		rep.count("nest_calls");
+		if got.get("panic").is_some() {
+			rep.mismatch("C03.panic", json!({"what": "parser panicked on a long byte input", "input": ctx, "entry": entry, "observed": got}));
+		} else if got != rec["exp"] {
+			let aspect = if got[0] != rec["exp"][0] && (got[0] == 1 || rec["exp"][0] == 1) { "C01.nest" } else { "C07.nest" };
+			rep.mismatch(aspect, json!({"what": "outcome on a long byte input differs from the byte-level specification (extrapolated)", "input": ctx, "entry": entry, "observed": got, "expected": rec["exp"]}));
+		}
+	}
+	rep.note_distinct(hash_of(&(rec["name"].to_string(), n)));
+}
+
 /// runs in the child: parse inside a thread with a fixed small stack
 pub fn child() {
 	let mut input = String::new();
